@@ -193,7 +193,8 @@ func formatOracle(src []byte, o Options) (msg string, info c39Info) {
 
 func TestC39(t *testing.T) {
 	rec := evid.Start(t, "C39", "grammar-generated programs rendered with comments (//, ///, /* */, /** */, nested, multi-line, with quotes/keywords/non-ASCII) at random token gaps "+
-		"(leading, trailing, same-line, inside empty lists, between arguments, before else, after {, end of file), random blank lines and semicolons, plus the repository's "+
+		"(leading, trailing, same-line, inside empty lists, between arguments, before else, after {, end of file; 2–3 comments of mixed forms in one gap after the last "+
+		"element before a closing )/]/}, after a comma and between statements — classes multi-gap/*, of which multi-judged/* reached the full oracle), random blank lines and semicolons, plus the repository's "+
 		"formatter/parser test snippets; every case with random options (LineWidth 1..100, indent space/tab × 1..8, SortImports, StripSemicolons, KeepBlankLines 0/1/3, SkipVerify). "+
 		"Oracle when Format returns no error: output parses; position-stripped AST JSON equal (imports as a multiset when SortImports); multiset of comment texts (independent scanner, "+
 		"trailing line whitespace and continuation-line indentation ignored) equal; Format(output) == output. Non-trivial: ≥ 2 comments in ≥ 2 gap classes and a source line longer than LineWidth. Distinct by source+options.")
@@ -214,7 +215,7 @@ func TestC39(t *testing.T) {
 	cfg := srcgen.DefaultConfig()
 	cfg.MaxDecls, cfg.MaxStmts = 4, 3
 	g := srcgen.New(r, cfg)
-	N := evid.N(2500, 25_000)
+	N := evid.N(2200, 25_000)
 	known := func(msg string, src []byte, o Options, info c39Info) string { return knownC39(rec, msg, src, o, info) }
 	report := func(class string, src []byte, o Options, notes []string, msg string) {
 		cls := msgClass(msg)
@@ -230,10 +231,24 @@ func TestC39(t *testing.T) {
 		rec.Violation(t, c, "%s", msg)
 	}
 	errors := map[string]int{}
-	eval := func(class string, src []byte, o Options, comments []srcgen.Comment) {
+	eval := func(class string, src []byte, o Options, comments []srcgen.Comment, multi map[string]int) {
 		msg, info := formatOracle(src, o)
+		// gaps with 2–3 comments: how many are produced, and how many of those cases are actually judged
+		multiOutcome := func(outcome string) {
+			if len(multi) == 0 {
+				return
+			}
+			rec.Class("multi-outcome/" + outcome)
+			for k, n := range multi {
+				rec.ClassN("multi-gap/"+k, int64(n))
+				if outcome == "judged" {
+					rec.Class("multi-judged/" + k)
+				}
+			}
+		}
 		if !info.parsed {
 			rec.Class(class + "/rejected-by-parser")
+			multiOutcome("rejected-by-parser")
 			return
 		}
 		gaps := map[string]bool{}
@@ -249,6 +264,7 @@ func TestC39(t *testing.T) {
 			}
 			errors[clip(key, 90)]++
 			rec.CaseH(false, evid.Hash(string(src), o))
+			multiOutcome("format-error")
 			return
 		}
 		rec.Class(class + "/formatted")
@@ -264,10 +280,12 @@ func TestC39(t *testing.T) {
 		if msg != "" {
 			if id := known(msg, src, o, info); id != "" {
 				rec.Excluded(id)
+				multiOutcome("excluded-" + id)
 				return
 			}
 			report(class, src, o, nil, msg)
 		}
+		multiOutcome("judged")
 	}
 	// ground-truth check of the independent comment scanner on what the renderer injected
 	scannerMismatch := 0
@@ -278,8 +296,9 @@ func TestC39(t *testing.T) {
 		} else {
 			p = g.Program()
 		}
-		l := srcgen.Layout{Comments: []float64{0.02, 0.03, 0.06, 0.12}[r.Intn(4)], Semicolons: r.Float64() * 0.5, BlankLines: r.Float64() * 0.4,
-			Compact: r.Float64(), NonASCII: r.Intn(2) == 0, DocComments: r.Intn(3) == 0, IndentSpaces: 1 + r.Intn(4)}
+		l := srcgen.Layout{Comments: []float64{0.02, 0.03, 0.05, 0.1}[r.Intn(4)], Semicolons: r.Float64() * 0.5, BlankLines: r.Float64() * 0.4,
+			Compact: r.Float64(), NonASCII: r.Intn(2) == 0, DocComments: r.Intn(3) == 0, IndentSpaces: 1 + r.Intn(4),
+			MultiComments: []float64{0, 0.05, 0.12, 0.25}[r.Intn(4)]}
 		rd := srcgen.Render(p.Toks, r, l)
 		scanned := srcgen.ScanComments([]byte(rd.Text))
 		if len(scanned) != len(rd.Comments) {
@@ -290,12 +309,12 @@ func TestC39(t *testing.T) {
 				}
 			}
 		}
-		eval("generated", []byte(rd.Text), randomOptions(r), rd.Comments)
+		eval("generated", []byte(rd.Text), randomOptions(r), rd.Comments, rd.MultiGaps)
 	}
 	corpus := harvest()
 	per := evid.N(700, 7000)
 	for k := 0; k < per && len(corpus) > 0; k++ {
-		eval("harvest", []byte(corpus[r.Intn(len(corpus))]), randomOptions(r), nil)
+		eval("harvest", []byte(corpus[r.Intn(len(corpus))]), randomOptions(r), nil, nil)
 	}
 	rec.Extra("formatter_errors", errors)
 	rec.Extra("comment_scanner_mismatches", scannerMismatch)
@@ -307,7 +326,8 @@ func TestC39(t *testing.T) {
 	if errc*100 > (okc+errc)*20 {
 		rec.Inconclusive(t, "the formatter returned an error for %d of %d accepted inputs (> 20 %%): %v", errc, okc+errc, errors)
 	}
-	rec.RequireClasses(t, "generated/formatted", "harvest/formatted", "gap/leading", "gap/trailing", "gap/inline", "gap/empty-list", "gap/between-args", "gap/after-open-brace", "gap/eof")
+	rec.RequireClasses(t, "generated/formatted", "harvest/formatted", "gap/leading", "gap/trailing", "gap/inline", "gap/empty-list", "gap/between-args", "gap/after-open-brace", "gap/eof",
+		"multi-judged/multi/before-close-paren", "multi-judged/multi/before-close-bracket", "multi-judged/multi/before-close-brace", "multi-judged/multi/after-comma", "multi-judged/multi/separator")
 }
 
 // knownC39 returns the id of a listed known finding matching the failure ("" if none).
